@@ -111,3 +111,9 @@ package utils
 //@   ensures "rsa-public-key": statictype(out, "*cryptoutils.RsaPublicKey") ==> (err == nil && (*out).N != nil ==>
 //@        (*out).N.val == rsaModN(data) && (*out).E == rsaExpE(data))
 //@   assigns out
+
+
+// Image magic-number detection over constant hex prefixes (HexToBytes of literals: cannot fail). Trusted: pure.
+//@ func IsImage
+//@   trusted
+//@   pure
